@@ -144,36 +144,43 @@ Theorem C06_output_probability :
 Proof. exact (fun K o SR => @annotated_pdist_prob K o SR). Qed.
 Print Assumptions C06_output_probability.
 
-(* ---- input side: independent per-photon outcomes (states without a run of >= 2 empty modes) ---- *)
-Theorem C06_inputs_are_independent_photons_partial :
+(* ---- input side: independent per-photon outcomes, for every input state ----
+   [state_outcomes st 1]: one label list per mode for every vector of per-photon outcomes (each photon
+   draws one of the six table entries, with its own fresh labels cnt, cnt+1), weight = product of the
+   entries.  The unmerged input dictionary denotes exactly this product distribution
+   (canonical form [an_make] = labels sorted within each mode). *)
+Theorem C06_inputs_are_independent_photons :
   forall {K} (o : ops K) (SR : StarRing o) nu p_i p2,
     filter_sound (o:=o) nu p_i p2 ->
     forall (st : state) (F : astate -> K),
-      group_empty st = ([], []) -> st <> [] -> Forall (fun n => (0 <= n)%Z) st ->
+      st <> [] -> Forall (fun n => (0 <= n)%Z) st ->
       wsum o (full_distribution o nu p_i p2 st) F
       = wsum o (state_outcomes o nu p_i p2 st 1%Z) (fun raw => F (an_make raw)).
-Proof. exact (fun K o SR => @full_distribution_spec_partial K o SR). Qed.
-Print Assumptions C06_inputs_are_independent_photons_partial.
+Proof. exact (fun K o SR => @full_distribution_spec K o SR). Qed.
+Print Assumptions C06_inputs_are_independent_photons.
 
-(* ---- the mixture specification of the whole annotated pipeline ----
+(* group_empty_modes = the recursion "a maximal run of empty modes that is followed by an empty mode is
+   added at once and its other members are skipped" *)
+Theorem C06_group_empty_spec : forall st : state, group_empty st = ge_rec 0 0 st.
+Proof. exact group_empty_rec. Qed.
+Print Assumptions C06_group_empty_spec.
+
+(* ---- the mixture specification of the whole annotated pipeline, for every input state ----
    For every observable F of the output pattern, the sampler's expectation of F equals the sum over
    the independent per-photon outcome vectors [raw] (labels per mode, weight = product of table
    entries) of the expectation of F when each group of equal labels is sampled from its own
-   boson-sampling distribution D and the occupations are added ([outcome_output]).
-   partial: stated for inputs without a run of >= 2 empty modes (group_empty st = ([],[]), a closed
-   computation for a concrete input); the grouping of empty modes is covered by
-   C06_stats_normalised (all inputs) and by the correspondence run *)
-Theorem C06_mixture_spec_partial :
+   boson-sampling distribution D and the occupations are added ([outcome_output]). *)
+Theorem C06_mixture_spec :
   forall {K} (o : ops K) (SR : StarRing o) nu p_i p2,
     filter_sound (o:=o) nu p_i p2 ->
     forall (D : state -> list (state * K)) n_modes,
       (forall g, D g <> []) ->
       forall (st : state) (F : state -> K),
-        group_empty st = ([], []) -> st <> [] -> Forall (fun n => (0 <= n)%Z) st ->
+        st <> [] -> Forall (fun n => (0 <= n)%Z) st ->
         wsum o (annotated_pdist o D n_modes (build_full o nu p_i p2 st)) F
         = wsum o (state_outcomes o nu p_i p2 st 1%Z) (fun raw => outcome_output (o:=o) D n_modes raw F).
-Proof. exact (fun K o SR => @mixture_spec_nogroup K o SR). Qed.
-Print Assumptions C06_mixture_spec_partial.
+Proof. exact (fun K o SR => @mixture_spec K o SR). Qed.
+Print Assumptions C06_mixture_spec.
 
 (* what [outcome_output] is: groups = equal labels, in first-occurrence order; each group g is drawn
    from D g; the draws are independent and added mode-wise *)
@@ -299,5 +306,6 @@ Example C06_hom_hypotheses_example :
   (0 <= 3 / 5 <= 1)%R /\ (sqrt (1 / 2) * sqrt (1 / 2) = 1 / 2)%R.
 Proof. split; [lra|]. apply sqrt_sqrt. lra. Qed.
 
-Example C06_no_grouping_example : group_empty [2; 0; 1; 0]%Z = ([], []) /\ group_empty [1; 0; 0; 1]%Z <> ([], []).
-Proof. split; [reflexivity|discriminate]. Qed.
+Example C06_grouping_example :
+  group_empty [2; 0; 1; 0]%Z = ([], []) /\ group_empty [1; 0; 0; 0; 1; 0; 0]%Z = ([(1, 3); (5, 2)], [2; 3; 6])%nat.
+Proof. split; reflexivity. Qed.
